@@ -51,6 +51,7 @@ KILLS = [
     "update_line_dict: first deletable key not removed from line_numbers -> index.mismatch, list.mismatch",
     "update_line_dict: index shift off by one for shrinking replacements > 40 bytes -> index.mismatch, goto.wrong-line, list.mismatch, links.broken",
     "Program.load: rebuild_line_dict skipped after a tokenised load -> list.mismatch, index.mismatch, goto.wrong-line",
+    "Program.merge: stop at the first empty line / at a blanks-only line / drop a last line without line break -> links.count, links.offset, goto.wrong-line, list.mismatch",
     "unfixed tree: 0x8F inside a string literal (skip_to) -> *.rem-byte-in-string",
 ]
 
